@@ -10,7 +10,7 @@
 (***************************************************************************)
 EXTENDS MosCollection, Json
 
-CONSTANTS MaxDocs, LongMax, Export
+CONSTANTS MaxDocs, LongMax, Export, BulkSizes
 
 Doc(mid, roid, kind) == [mid |-> mid, roid |-> roid, kind |-> kind]
 Pool == { Doc(9, "RO1", "roCreate"), Doc(1000, "RO1", "roCreate"),
@@ -27,7 +27,19 @@ Ascending(S) == SortByMid(SetToSeq(S))
 LongSets == { S \in SUBSET Pool : Cardinality(S) \in (MaxDocs+1)..LongMax /\ Doc(9, "RO1", "roCreate") \in S
                                   /\ Doc(1000, "RO1", "roCreate") \notin S /\ Doc(99, "RO1 ", "ok") \notin S }
 LongLists == { Ascending(S) : S \in LongSets } \cup { Reverse(Ascending(S)) : S \in LongSets }
-Lists == ShortLists \cup LongLists
+(* bulk collections: two-digit and larger message counts (a roCreate, n-2   *)
+(* messages of which every 7th fails and every 11th warns, a roDelete),    *)
+(* supplied ascending, descending, rotated, with one straggler moved to    *)
+(* the end, and interleaved                                                *)
+BulkDoc(k) == Doc(19 + k, "RO1", IF k % 7 = 0 THEN "fail" ELSE IF k % 11 = 0 THEN "warn" ELSE "ok")
+BulkAsc(n) == <<Doc(9, "RO1", "roCreate")>> \o [k \in 1..(n-2) |-> BulkDoc(k)] \o <<Doc(5000, "RO1", "roDelete")>>
+Rotate(s, r) == SubSeq(s, r+1, Len(s)) \o SubSeq(s, 1, r)
+Straggler(s) == <<s[1]>> \o SubSeq(s, 3, Len(s)) \o <<s[2]>>
+EvenOdd(s) == LET n == Len(s)  h == (n + 1) \div 2
+                 IN [k \in 1..n |-> IF k <= h THEN s[2*k - 1] ELSE s[2*(k - h)]]
+BulkLists == UNION { { BulkAsc(n), Reverse(BulkAsc(n)), Rotate(BulkAsc(n), n \div 3), Straggler(BulkAsc(n)),
+                       EvenOdd(BulkAsc(n)) } : n \in BulkSizes }
+Lists == ShortLists \cup LongLists \cup BulkLists
 
 (* ---------------------------------------------------------------------- *)
 (* The merge loop as a state machine                                      *)
